@@ -148,10 +148,13 @@ A_MACROS = [
     'A-dep: syn / proc_macro2 types are stubs (contracts/macros_stub.rs): an identifier or token stream is abstracted by its text; to_string() is a function of that text; clone preserves it. '
     'evaluate_cfgs is assumed to be a deterministic function of the lookup table and the predicates (its body reads a HashMap<String, bool>).',
     'A-derive: the derived Clone impls of the parse types (ParseQueryParam, ParseQueryParamType, ParseAttributeCfg) are field-wise (the derives are dropped by R-derive and replaced by trusted stand-ins).',
-    'A-std: String obeys the HashMap key model (vstd has this axiom for the primitive types only); Vec::drain(..) consumed by a for loop yields the elements in order (R-drain).',
+    'A-std: String obeys the HashMap key model and is determined by its content (axiom_string_obeys_key_model, axiom_string_ext; vstd has the key-model axiom for the primitive types only); Vec::drain(..) consumed by a for loop yields the elements in order (R-drain).',
     'Caller assumptions (preconditions of bind_query_params): the parser never produces the reserved parameter variants Option/With/Without; archetype names of one world are pairwise distinct.',
-    'Partial claim: the emitted token streams, the compile errors reaching the user, and the parsers (macros/src/parse/*) are outside these contracts.',
-    'R-rules: the verified text is the text of macros/src/{data.rs, generate/query.rs, parse/*.rs (struct definitions)} after R-items, R-derive, R-syn, R-drain, R-continue, R-optmap, R-lettype (DESIGN.md section 3).',
+    'R-emit: the emission skeletons of generate_query_find / generate_query_iter / generate_query_iter_destroy are SLICES of the real functions (gv/emit.py): from `let bound_params = bind_query_params(..)?` on, '
+    'keeping the binding call, `let mut queries`, the for / if-let headers, continue/break guards, `queries.push(..)` and the final if/else; every other statement must be a `let` that passes a syntactic purity check and is dropped; '
+    'quote!(..) -> opaque gv_tokens(), syn::Error::new_spanned(..) -> gv_error(). Token CONTENT is outside the claim (the block content is verified for one schema by R-tmpl in the templates unit).',
+    'Partial claim: the content of emitted token streams beyond the schema instantiation, the text of compile errors, the cfg pre-pass (is_cfg_enabled) and the parsers (macros/src/parse/*) are outside these contracts.',
+    'R-rules: the verified text is the text of macros/src/{data.rs, generate/query.rs, parse/*.rs (struct definitions)} after R-items, R-derive, R-syn, R-drain, R-continue, R-optmap, R-lettype, R-emit (DESIGN.md section 3).',
 ]
 
 
